@@ -459,7 +459,24 @@ def connect_does_not_swallow_a_stop(chk: Check, repo: Repo) -> None:
     chk.ob("connect-notices-a-disconnect", rc.site(), ok, "Routing.connect reports CONNECTED only where the flag Routing.disconnect raises is down, lowering it before the transport's connect" if ok else "Routing.connect reports CONNECTED without looking whether disconnect() ran while it was suspended in the transport's connect: stop() during start() is undone - CONNECTED with no interface, sockets left open", key="routing-connect|disconnect-while-connecting")
 
 
+def state_callbacks_are_isolated(chk: Check, repo: Repo) -> None:
+    """Every registered callback is told of a change, and the interface that reports it goes on with its own steps (the
+    tunnel's disconnect notifies DISCONNECTED before it sends the DisconnectRequest and closes the transport): a callback
+    that raises is contained where it is called - the call sits in a `try` whose `except Exception` does not re-raise."""
+    f = repo.func("xknx.core.connection_manager", "ConnectionManager._connection_state_changed")
+    loops = [n for n in walk_local(f.node) if isinstance(n, (ast.For, ast.AsyncFor)) and "_connection_state_changed_cbs" in ast.unparse(n.iter)]
+    ok = False
+    if len(loops) == 1 and isinstance(loops[0].target, ast.Name):
+        v = loops[0].target.id
+        for t in [x for x in ast.walk(loops[0]) if isinstance(x, ast.Try)]:
+            called = any(isinstance(c, ast.Call) and isinstance(c.func, ast.Name) and c.func.id == v for st in t.body for c in ast.walk(st))
+            contained = any(h.type is not None and ast.unparse(h.type) in ("Exception", "BaseException") and not any(isinstance(x, ast.Raise) for st in h.body for x in ast.walk(st)) for h in t.handlers)
+            ok = ok or (called and contained)
+    chk.ob("state-callbacks-are-isolated", f.site(), ok, "each connection state callback is called inside try/except Exception (logged, not re-raised)" if ok else "a connection state callback that raises ends the dispatch: the callbacks behind it never learn of the change, and the exception aborts the interface's own connect / disconnect in the middle (DISCONNECTED reported, channel still open)", key="state-callbacks|isolated")
+
+
 def run(chk: Check, repo: Repo) -> None:
+    state_callbacks_are_isolated(chk, repo)
     transport_slot(chk, repo)
     connect_does_not_swallow_a_stop(chk, repo)
     from .common_rules import dispatch_iterates_a_snapshot
